@@ -15,8 +15,11 @@ theorem pidSpecCore : SpecCore PidInv := pidSpec.toSpecCore
 theorem pidLeaf : Leaf PidInv := pidSpecCore.toLeaf
 
 /-- quiet and accounting-preserving computations keep `SI` -/
-theorem SI.pres_quiet {α : Type} {m : M α} (hq : SQuietM m) (hp : Pres PidInv m) : Pres SI m :=
+theorem SI.pres_quiet {J : JMode} {α : Type} {m : M α} (hq : SQuietM m) (hp : Pres PidInv m) : Pres (SI J) m :=
   fun s h => h.of_quiet (hp s h.pid) (hq s)
+
+theorem SI.pres_quietW {α : Type} {m : M α} (hq : SQuietWM m) (hp : Pres PidInv m) : Pres (SI none) m :=
+  fun s h => h.of_quietW (hp s h.pid) (hq s)
 
 /-! ### `Process` objects are never deleted -/
 
@@ -147,17 +150,27 @@ theorem squiet_fireSleeper (sl : Sleeper) (s : State) : SQuiet s (fireSleeper sl
     hook := fun u h hh => hh
     unl := fun u p _ hn => hn
     gone := fun p h => KGMono.setNow s.k _ p h
-    reap := fun p st h => Or.inl h }
+    reap := fun p st h => Or.inl h
+    ndc := fun p h => KNMono.setNow s.k _ p h }
   frames := rfl
   ready := rfl
+  nn := ⟨⟨[], by simp [fireSleeper, modS], fun _ h => by cases h⟩, fun w hw h9 => ⟨w, hw, h9⟩,
+    fun q hq => Or.inl (by
+      have := (KStep.setNow s.k (max s.k.now sl.deadline)).pids
+      simp only [fireSleeper, modS] at hq
+      rw [this] at hq; exact hq),
+    by
+      have := (KStep.setNow s.k (max s.k.now sl.deadline)).nextPid
+      simp only [fireSleeper, modS]
+      rw [this]; exact Nat.le_refl _⟩
 
 /-- a new watcher object (fresh identity, empty `processes`) hides nothing -/
-theorem squiet_registerNew (w : Watcher) (hw : w.pids = []) (s : State) : SQuiet s (registerNew w s).2 := by
+theorem squietW_registerNew (w : Watcher) (hw : w.pids = []) (s : State) : SQuietW s (registerNew w s).2 := by
   unfold registerNew registerChecked
   split
-  · exact SQuiet.refl s
+  · exact SQuietW.refl s
   · split
-    · exact SQuiet.refl s
+    · exact SQuietW.refl s
     · have hfind : ∀ v, ((s.ws ++ [({ clampNp w with uid := s.nextId } : Watcher)]).find? (fun x => decide (x.uid = v))) =
           ((s.ws.find? (fun x => decide (x.uid = v))).or
             (if s.nextId = v then some ({ clampNp w with uid := s.nextId } : Watcher) else none)) := by
@@ -166,7 +179,7 @@ theorem squiet_registerNew (w : Watcher) (hw : w.pids = []) (s : State) : SQuiet
         congr 1
         simp only [List.find?_cons, List.find?_nil]
         by_cases hv : s.nextId = v <;> simp [hv]
-      refine ⟨⟨⟨fun o h => h, fun h => h, fun p h => h, ?_, ?_, fun p h => h, fun p st h => Or.inl h⟩, fun p _ => rfl⟩, rfl, rfl⟩
+      refine ⟨⟨⟨fun o h => h, fun h => h, fun p h => h, ?_, ?_, fun p h => h, fun p st h => Or.inl h, fun p h => h⟩, fun p _ => rfl⟩, rfl, rfl⟩
       · intro v h hc
         unfold HookCalled at *
         simp only [getW] at hc ⊢
@@ -189,12 +202,12 @@ theorem squiet_registerNew (w : Watcher) (hw : w.pids = []) (s : State) : SQuiet
         | some x => rw [hf] at hl; simpa using hl
 
 /-- `Popen()`: the new pid is the pid counter's value, above every pid that has a `Process` object -/
-theorem squiet_spawnAdopt (u wid : Nat) (s : State) (hpid : PidInv s) : SQuiet s (spawnAdopt u wid s).2 := by
+theorem squietW_spawnAdopt (u wid : Nat) (s : State) (hpid : PidInv s) : SQuietW s (spawnAdopt u wid s).2 := by
   cases hr : (s.k.spawn).2 with
   | none =>
     rw [spawnAdopt_none u wid s hr]
-    refine ⟨⟨⟨?_, fun h => h, fun p h => h, fun u h hh => hh, fun u p _ hn => hn, fun p h => KGMono.spawn s.k p h, ?_⟩,
-      fun p _ => rfl⟩, rfl, rfl⟩
+    refine ⟨⟨⟨?_, fun h => h, fun p h => h, fun u h hh => hh, fun u p _ hn => hn, fun p h => KGMono.spawn s.k p h, ?_,
+      fun p h => KNMono.spawn s.k p h⟩, fun p _ => rfl⟩, rfl, rfl⟩
     · intro o h
       simp only
       split
@@ -212,7 +225,7 @@ theorem squiet_spawnAdopt (u wid : Nat) (s : State) (hpid : PidInv s) : SQuiet s
     obtain ⟨hpe, _⟩ := spawn_some (k := s.k) (k' := (s.k.spawn).1) (pid := pid) (by rw [← hr])
     have hg : ∀ w : Watcher, (if w.uid = u then { w with pids := w.pids ++ [pid] } else w).uid = w.uid := by
       intro w; split <;> rfl
-    refine ⟨⟨⟨?_, fun h => h, ?_, ?_, ?_, fun p h => KGMono.spawn s.k p h, ?_⟩, ?_⟩, rfl, rfl⟩
+    refine ⟨⟨⟨?_, fun h => h, ?_, ?_, ?_, fun p h => KGMono.spawn s.k p h, ?_, fun p h => KNMono.spawn s.k p h⟩, ?_⟩, rfl, rfl⟩
     · intro o h
       simp only
       split
@@ -268,11 +281,46 @@ theorem squiet_spawnAdopt (u wid : Nat) (s : State) (hpid : PidInv s) : SQuiet s
         simp [ho2] at this
       | some o' => rfl
 
-/-! ### `Pres SI` for the quiet writers -/
+theorem nonine_spawnAdopt (u wid : Nat) (s : State) : NoNine s (spawnAdopt u wid s).2 := by
+  cases hr : (s.k.spawn).2 with
+  | none =>
+    rw [spawnAdopt_none u wid s hr]
+    have hk : KStep s.k (s.k.spawn).1 := spawn_none (k' := (s.k.spawn).1) (by rw [← hr])
+    refine ⟨?_, fun w hw h9 => ⟨w, hw, h9⟩, fun q hq => Or.inl (by rw [← hk.pids]; exact hq), by
+      show s.k.nextPid ≤ (s.k.spawn).1.nextPid
+      rw [hk.nextPid]; exact Nat.le_refl _⟩
+    simp only
+    split
+    · exact ⟨[], by simp, fun _ h => by cases h⟩
+    · exact ⟨[Obs.execfail], rfl, by simp [Obs.isNine]⟩
+  | some pid =>
+    rw [spawnAdopt_some u wid s pid hr]
+    obtain ⟨hpe, n, hnp, hpr⟩ := spawn_some (k := s.k) (k' := (s.k.spawn).1) (pid := pid) (by rw [← hr])
+    refine ⟨?_, ?_, ?_, by show s.k.nextPid ≤ (s.k.spawn).1.nextPid; rw [hnp]; omega⟩
+    · simp only
+      split
+      · exact ⟨[], by simp, fun _ h => by cases h⟩
+      · exact ⟨[_], rfl, by simp [Obs.isNine]⟩
+    · intro w' hw' h9
+      obtain ⟨w, hw, rfl⟩ := List.mem_map.mp hw'
+      refine ⟨w, hw, ?_⟩
+      split at h9 <;> exact h9
+    · intro q hq
+      simp only [hpr] at hq
+      rcases List.mem_append.mp hq with hq | hq
+      · exact Or.inl hq
+      · right
+        simp only [List.mem_range'_1] at hq
+        omega
 
-theorem siLeafS : LeafS SI where
-  emit := fun o ho => SI.pres_quiet (squiet_emit o ho) (pidLeafW.emit o)
-  kKill := fun p sg via => SI.pres_quiet (squiet_kKill p sg via) (kKill_pres pidLeafW.toLeafK p sg via)
+theorem squiet_spawnAdopt (u wid : Nat) (s : State) (hpid : PidInv s) : SQuiet s (spawnAdopt u wid s).2 :=
+  ⟨squietW_spawnAdopt u wid s hpid, nonine_spawnAdopt u wid s⟩
+
+/-! ### `Pres (SI J)` for the quiet writers -/
+
+theorem siLeafS0 (J : JMode) : LeafS0 (SI J) where
+  emit := fun o ho hn => SI.pres_quiet (squiet_emit o ho hn) (pidLeafW.emit o)
+  kKillN := fun p sg via h => SI.pres_quiet (squiet_kKill p sg via h) (kKill_pres pidLeafW.toLeafK p sg via)
   kWaitpid := fun pid => SI.pres_quiet (squiet_kWaitpid pid) (kWaitpid_pres pidLeafW.toLeafK pid)
   kStateOf := fun pid => SI.pres_quiet (squiet_kStateOf pid) (kStateOf_pres pidLeafW.toLeafK pid)
   kChildren := fun pid r => SI.pres_quiet (squiet_kChildren pid r) (kChildren_pres pidLeafW.toLeafK pid r)
@@ -283,66 +331,84 @@ theorem siLeafS : LeafS SI where
   setRc := fun p rc => SI.pres_quiet (squiet_setRc p rc) (pidLeafW.setRc p rc)
   markBlocked := SI.pres_quiet squiet_markBlocked pidLeafW.markBlocked
 
-attribute [aesop safe apply (rule_sets := [Sg])] siLeafS
+/-- without a justification claim, a SIGKILL through `send_signal` is an ordinary signal -/
+theorem siLeafS : LeafS (SI none) where
+  toLeafS0 := siLeafS0 none
+  kKill9 := fun p => SI.pres_quietW (squietW_kKill p 9 "") (kKill_pres pidLeafW.toLeafK p 9 "")
+
+attribute [aesop safe apply (rule_sets := [Sg])] siLeafS0 siLeafS
+
+section
+variable {J : JMode}
 
 @[aesop safe apply (rule_sets := [Sg])]
-theorem freshId_si : Pres SI freshId := SI.pres_quiet squiet_freshId pidLeafX.freshId
+theorem freshId_si : Pres (SI J) freshId := SI.pres_quiet squiet_freshId pidLeafX.freshId
 @[aesop safe apply (rule_sets := [Sg])]
-theorem pushSleeper_si (sl : Sleeper) : Pres SI (pushSleeper sl) := SI.pres_quiet (squiet_pushSleeper sl) (pidLeafX.pushSleeper sl)
+theorem pushSleeper_si (sl : Sleeper) : Pres (SI J) (pushSleeper sl) := SI.pres_quiet (squiet_pushSleeper sl) (pidLeafX.pushSleeper sl)
 @[aesop safe apply (rule_sets := [Sg])]
-theorem pushTop_si (t : TopFut) : Pres SI (pushTop t) := SI.pres_quiet (squiet_pushTop t) (pidLeafX.pushTop t)
+theorem pushTop_si (t : TopFut) : Pres (SI J) (pushTop t) := SI.pres_quiet (squiet_pushTop t) (pidLeafX.pushTop t)
 @[aesop safe apply (rule_sets := [Sg])]
-theorem armTop_si (t : Nat) : Pres SI (armTop t) := SI.pres_quiet (squiet_armTop t) (pidLeafX.armTop t)
+theorem armTop_si (t : Nat) : Pres (SI J) (armTop t) := SI.pres_quiet (squiet_armTop t) (pidLeafX.armTop t)
 @[aesop safe apply (rule_sets := [Sg])]
-theorem finishTop_si (t : Nat) (v : Val) : Pres SI (finishTop t v) := SI.pres_quiet (squiet_finishTop t v) (pidLeafX.finishTop t v)
+theorem finishTop_si (t : Nat) (v : Val) : Pres (SI J) (finishTop t v) := SI.pres_quiet (squiet_finishTop t v) (pidLeafX.finishTop t v)
 @[aesop safe apply (rule_sets := [Sg])]
-theorem topAddCb_si (t : Nat) (cb : TopCb) : Pres SI (topAddCb t cb) := SI.pres_quiet (squiet_topAddCb t cb) (pidLeafX.topAddCb t cb)
+theorem topAddCb_si (t : Nat) (cb : TopCb) : Pres (SI J) (topAddCb t cb) := SI.pres_quiet (squiet_topAddCb t cb) (pidLeafX.topAddCb t cb)
 @[aesop safe apply (rule_sets := [Sg])]
-theorem clearDone_si : Pres SI clearDone := SI.pres_quiet squiet_clearDone pidLeafX.clearDone
+theorem clearDone_si : Pres (SI J) clearDone := SI.pres_quiet squiet_clearDone pidLeafX.clearDone
 @[aesop safe apply (rule_sets := [Sg])]
-theorem setSlot_si (v : Option String) : Pres SI (setSlot v) := SI.pres_quiet (squiet_setSlot v) (pidLeafX.setSlot v)
+theorem setSlot_si (v : Option String) : Pres (SI J) (setSlot v) := SI.pres_quiet (squiet_setSlot v) (pidLeafX.setSlot v)
 @[aesop safe apply (rule_sets := [Sg])]
-theorem setStopping_si : Pres SI setStopping := SI.pres_quiet squiet_setStopping pidLeafX.setStopping
+theorem setStopping_si : Pres (SI J) setStopping := SI.pres_quiet squiet_setStopping pidLeafX.setStopping
 @[aesop safe apply (rule_sets := [Sg])]
-theorem setRestarting_si : Pres SI setRestarting := SI.pres_quiet squiet_setRestarting pidLeafX.setRestarting
+theorem setRestarting_si : Pres (SI J) setRestarting := SI.pres_quiet squiet_setRestarting pidLeafX.setRestarting
 @[aesop safe apply (rule_sets := [Sg])]
-theorem setLoopStop_si (b : Bool) : Pres SI (setLoopStop b) := SI.pres_quiet (squiet_setLoopStop b) (pidLeafX.setLoopStop b)
+theorem setLoopStop_si (b : Bool) : Pres (SI J) (setLoopStop b) := SI.pres_quiet (squiet_setLoopStop b) (pidLeafX.setLoopStop b)
 @[aesop safe apply (rule_sets := [Sg])]
-theorem setSocketEvent_si (b : Bool) : Pres SI (setSocketEvent b) := SI.pres_quiet (squiet_setSocketEvent b) (pidLeafX.setSocketEvent b)
+theorem setSocketEvent_si (b : Bool) : Pres (SI J) (setSocketEvent b) := SI.pres_quiet (squiet_setSocketEvent b) (pidLeafX.setSocketEvent b)
 @[aesop safe apply (rule_sets := [Sg])]
-theorem setSockReady_si (b : Bool) : Pres SI (setSockReady b) := SI.pres_quiet (squiet_setSockReady b) (pidLeafX.setSockReady b)
+theorem setSockReady_si (b : Bool) : Pres (SI J) (setSockReady b) := SI.pres_quiet (squiet_setSockReady b) (pidLeafX.setSockReady b)
 @[aesop safe apply (rule_sets := [Sg])]
-theorem setClosed_si : Pres SI setClosed := SI.pres_quiet squiet_setClosed pidLeafX.setClosed
+theorem setClosed_si : Pres (SI J) setClosed := SI.pres_quiet squiet_setClosed pidLeafX.setClosed
 @[aesop safe apply (rule_sets := [Sg])]
-theorem unregister_si (u : Nat) : Pres SI (unregisterWatcher u) := SI.pres_quiet (squiet_unregister u) (pidLeafX.unregister u)
+theorem unregister_si (u : Nat) : Pres (SI J) (unregisterWatcher u) := SI.pres_quiet (squiet_unregister u) (pidLeafX.unregister u)
 @[aesop safe apply (rule_sets := [Sg])]
-theorem setStatus_si (u : Nat) (st : Status) : Pres SI (setStatus u st) := SI.pres_quiet (squiet_setStatus u st) (pidLeafX.setStatus u st)
+theorem setStatus_si (u : Nat) (st : Status) : Pres (SI J) (setStatus u st) := SI.pres_quiet (squiet_setStatus u st) (pidLeafX.setStatus u st)
 @[aesop safe apply (rule_sets := [Sg])]
-theorem trySetNp_si (u : Nat) (n : Int) : Pres SI (trySetNp u n) := SI.pres_quiet (squiet_trySetNp u n) (pidLeafX.trySetNp u n)
+theorem trySetNp_si (u : Nat) (n : Int) : Pres (SI J) (trySetNp u n) := SI.pres_quiet (squiet_trySetNp u n) (pidLeafX.trySetNp u n)
 @[aesop safe apply (rule_sets := [Sg])]
-theorem setWOpt_si (u : Nat) (c : OptChange) : Pres SI (setWOpt u c) := SI.pres_quiet (squiet_setWOpt u c) (pidLeafX.setWOpt u c)
-@[aesop safe apply (rule_sets := [Sg])]
-theorem emitRep_si (c : String) (i : JVal) (a b d : String) : Pres SI (emitRep c i a b d) :=
+theorem emitRep_si (c : String) (i : JVal) (a b d : String) : Pres (SI J) (emitRep c i a b d) :=
   SI.pres_quiet (squiet_emitRep c i a b d) (pidLeafX.emitRep c i a b d)
 @[aesop safe apply (rule_sets := [Sg])]
-theorem fireSleeper_si (sl : Sleeper) : Pres SI (fireSleeper sl) := SI.pres_quiet (squiet_fireSleeper sl) (pidLeafX.fireSleeper sl)
-theorem registerNew_si (w : Watcher) (hw : w.pids = []) : Pres SI (registerNew w) :=
-  SI.pres_quiet (squiet_registerNew w hw) (pidLeafX.registerNew w hw)
+theorem fireSleeper_si (sl : Sleeper) : Pres (SI J) (fireSleeper sl) := SI.pres_quiet (squiet_fireSleeper sl) (pidLeafX.fireSleeper sl)
 @[aesop safe apply (rule_sets := [Sg])]
-theorem spawnAdopt_si (u wid : Nat) : Pres SI (spawnAdopt u wid) :=
+theorem spawnAdopt_si (u wid : Nat) : Pres (SI J) (spawnAdopt u wid) :=
   fun s h => h.of_quiet (pidLeafX.spawnAdopt u wid s h.pid) (squiet_spawnAdopt u wid s h.pid)
-theorem emit_si (o : Obs) (ho : o.isReap = false) : Pres SI (emit o) := siLeafS.emit o ho
-theorem updK_si (f : Kernel → Kernel) (hf : ∀ k, KGMono k (f k)) (hs : ∀ k, KStep k (f k)) : Pres SI (updK f) :=
-  SI.pres_quiet (squiet_updK f hf) (updK_pres pidLeafW.toLeafK f hs)
+theorem emit_si (o : Obs) (ho : o.isReap = false) (hn : o.isNine = false) : Pres (SI J) (emit o) := (siLeafS0 J).emit o ho hn
+theorem updK_si (f : Kernel → Kernel) (hf : ∀ k, KGMono k (f k)) (hn : ∀ k, KNMono k (f k)) (hs : ∀ k, KStep k (f k)) :
+    Pres (SI J) (updK f) :=
+  SI.pres_quiet (squiet_updK f hf hn hs) (updK_pres pidLeafW.toLeafK f hs)
+
+end
+
+/-- `set_opt` may write `stop_signal`; `add_watcher` brings a watcher with any `stop_signal`: both only
+    without a justification claim (they belong to the requests `set` and `add`) -/
+@[aesop safe apply (rule_sets := [Sg])]
+theorem setWOpt_si (u : Nat) (c : OptChange) : Pres (SI none) (setWOpt u c) := SI.pres_quietW (squietW_setWOpt u c) (pidLeafX.setWOpt u c)
+theorem registerNew_si (w : Watcher) (hw : w.pids = []) : Pres (SI none) (registerNew w) :=
+  SI.pres_quietW (squietW_registerNew w hw) (pidLeafX.registerNew w hw)
 
 /-! ### the coroutine heap -/
+
+section
+variable {J : JMode}
+
 
 /-- a change of the coroutine heap only: what continuations know is untouched -/
 theorem Ext.of_heap {s s' : State} (hl : s'.log = s.log) (hb : s'.blocked = s.blocked) (ho : s'.objs = s.objs)
     (hw : s'.ws = s.ws) (hk : s'.k = s.k) : Ext s s' :=
   (SQuiet.of_eq (s' := { s' with frames := s.frames, ready := s.ready }) hl hb ho hw hk rfl rfl).ext |> fun e =>
     { log := e.log, blocked := e.blocked, obj := e.obj, hook := e.hook, unl := e.unl, gone := e.gone, reap := e.reap,
-      stop := e.stop }
+      ndc := e.ndc, stop := e.stop }
 
 theorem countP_le_of_imp {α : Type} (l : List α) (p q : α → Bool) (h : ∀ x ∈ l, p x = true → q x = true) :
     l.countP p ≤ l.countP q := List.countP_mono_left h
@@ -367,10 +433,10 @@ theorem pendCount_pos_of_ready {s : State} {r : Ready} {p : Nat} (hr : r ∈ s.r
   have : 0 < s.ready.countP (fun r => r.loopPid == some p) := List.countP_pos_iff.mpr ⟨r, hr, by simp [hp]⟩
   omega
 
-theorem pushFrame_si (f : Frame) (s : State) (h : SI s) (hk : KOk s f.k)
-    (hc : ∀ p, f.k.loopPid = some p → pendCount s p = 0) : SI (pushFrame f s).2 := by
+theorem pushFrame_si (f : Frame) (s : State) (h : SI J s) (hk : KOk s f.k)
+    (hc : ∀ p, f.k.loopPid = some p → pendCount s p = 0) : SI J (pushFrame f s).2 := by
   have e : Ext s (pushFrame f s).2 := Ext.of_heap rfl rfl rfl rfl rfl
-  refine ⟨pidLeafX.pushFrame f s h.pid, ?_, ?_, ?_, h.reap⟩
+  refine ⟨pidLeafX.pushFrame f s h.pid, ?_, ?_, ?_, h.reap, fun jm hj => (h.just jm hj).mono e.toExt0 (NoNine.of_eq rfl rfl rfl)⟩
   · intro g hg
     simp only [pushFrame, modS] at hg
     rcases List.mem_append.mp hg with hg | hg
@@ -389,10 +455,10 @@ theorem pushFrame_si (f : Frame) (s : State) (h : SI s) (hk : KOk s f.k)
       simp [hp]; omega
     · simp [hp]; omega
 
-theorem removeFrame_si (fid : Nat) : Pres SI (removeFrame fid) := by
+theorem removeFrame_si (fid : Nat) : Pres (SI J) (removeFrame fid) := by
   intro s h
   have e : Ext s (removeFrame fid s).2 := Ext.of_heap rfl rfl rfl rfl rfl
-  refine ⟨pidLeafX.removeFrame fid s h.pid, ?_, ?_, ?_, h.reap⟩
+  refine ⟨pidLeafX.removeFrame fid s h.pid, ?_, ?_, ?_, h.reap, fun jm hj => (h.just jm hj).mono e.toExt0 (NoNine.of_eq rfl rfl rfl)⟩
   · intro g hg
     simp only [removeFrame, modS] at hg
     exact (h.fr g (List.mem_filter.mp hg).1).mono e
@@ -409,7 +475,7 @@ theorem removeFrame_si (fid : Nat) : Pres SI (removeFrame fid) := by
     omega
 
 /-- removing the frame of a pending kill loop leaves no loop pending for its pid -/
-theorem pendCount_removeFrame {s : State} (h : SI s) {f : Frame} (hf : f ∈ s.frames) {p : Nat} (hp : f.k.loopPid = some p) :
+theorem pendCount_removeFrame {s : State} (h : SI J s) {f : Frame} (hf : f ∈ s.frames) {p : Nat} (hp : f.k.loopPid = some p) :
     pendCount (removeFrame f.fid s).2 p = 0 := by
   have hu := h.uniq p
   unfold pendCount at *
@@ -423,10 +489,10 @@ theorem pendCount_removeFrame {s : State} (h : SI s) {f : Frame} (hf : f ∈ s.f
     omega
   omega
 
-theorem armFrame_si (fid : Nat) : Pres SI (armFrame fid) := by
+theorem armFrame_si (fid : Nat) : Pres (SI J) (armFrame fid) := by
   intro s h
   have e : Ext s (armFrame fid s).2 := Ext.of_heap rfl rfl rfl rfl rfl
-  refine ⟨pidLeafX.armFrame fid s h.pid, ?_, ?_, ?_, h.reap⟩
+  refine ⟨pidLeafX.armFrame fid s h.pid, ?_, ?_, ?_, h.reap, fun jm hj => (h.just jm hj).mono e.toExt0 (NoNine.of_eq rfl rfl rfl)⟩
   · intro g hg
     simp only [armFrame, modS] at hg
     obtain ⟨g0, hg0, rfl⟩ := List.mem_map.mp hg
@@ -445,10 +511,10 @@ theorem armFrame_si (fid : Nat) : Pres SI (armFrame fid) := by
       funext g; simp only [Function.comp]; split <;> rfl
     rw [this]; exact hu
 
-theorem setFrameK_si (fid : Nat) (k : Kont) (hk : k.free = true) : Pres SI (setFrameK fid k) := by
+theorem setFrameK_si (fid : Nat) (k : Kont) (hk : k.free = true) : Pres (SI J) (setFrameK fid k) := by
   intro s h
   have e : Ext s (setFrameK fid k s).2 := Ext.of_heap rfl rfl rfl rfl rfl
-  refine ⟨pidLeafX.setFrameK fid k s h.pid, ?_, ?_, ?_, h.reap⟩
+  refine ⟨pidLeafX.setFrameK fid k s h.pid, ?_, ?_, ?_, h.reap, fun jm hj => (h.just jm hj).mono e.toExt0 (NoNine.of_eq rfl rfl rfl)⟩
   · intro g hg
     simp only [setFrameK, modS] at hg
     obtain ⟨g0, hg0, rfl⟩ := List.mem_map.mp hg
@@ -471,10 +537,10 @@ theorem setFrameK_si (fid : Nat) (k : Kont) (hk : k.free = true) : Pres SI (setF
       · exact hg
     omega
 
-theorem enqueue_si (r : Ready) (s : State) (h : SI s) (hk : ∀ k, r.kont = some k → KOk s k)
-    (hc : ∀ p, r.loopPid = some p → pendCount s p = 0) : SI (enqueue r s).2 := by
+theorem enqueue_si (r : Ready) (s : State) (h : SI J s) (hk : ∀ k, r.kont = some k → KOk s k)
+    (hc : ∀ p, r.loopPid = some p → pendCount s p = 0) : SI J (enqueue r s).2 := by
   have e : Ext s (enqueue r s).2 := Ext.of_heap rfl rfl rfl rfl rfl
-  refine ⟨pidLeafX.enqueue r s h.pid, ?_, ?_, ?_, h.reap⟩
+  refine ⟨pidLeafX.enqueue r s h.pid, ?_, ?_, ?_, h.reap, fun jm hj => (h.just jm hj).mono e.toExt0 (NoNine.of_eq rfl rfl rfl)⟩
   · intro g hg
     exact (h.fr g hg).mono e
   · intro r' hr' k hrk
@@ -495,23 +561,23 @@ theorem enqueue_si (r : Ready) (s : State) (h : SI s) (hk : ∀ k, r.kont = some
     · simp [hp]; omega
 
 /-- ready entries that carry no continuation -/
-theorem enqueue_plain_si (r : Ready) (hr : r.kont = none) : Pres SI (enqueue r) := fun s h =>
+theorem enqueue_plain_si (r : Ready) (hr : r.kont = none) : Pres (SI J) (enqueue r) := fun s h =>
   enqueue_si r s h (fun k hk => by rw [hr] at hk; cases hk) (fun p hp => by simp [Ready.loopPid, hr] at hp)
 
 @[aesop safe apply (rule_sets := [Sg])]
-theorem enqueueCallback_si (n : String) : Pres SI (enqueue (.callback n)) := enqueue_plain_si _ rfl
+theorem enqueueCallback_si (n : String) : Pres (SI J) (enqueue (.callback n)) := enqueue_plain_si _ rfl
 @[aesop safe apply (rule_sets := [Sg])]
-theorem enqueueTopCb_si (cb : TopCb) (v : Val) : Pres SI (enqueue (.topCb cb v)) := enqueue_plain_si _ rfl
+theorem enqueueTopCb_si (cb : TopCb) (v : Val) : Pres (SI J) (enqueue (.topCb cb v)) := enqueue_plain_si _ rfl
 @[aesop safe apply (rule_sets := [Sg])]
-theorem enqueueCloseCtl_si : Pres SI (enqueue .closeCtl) := enqueue_plain_si _ rfl
-theorem enqueueResume_free_si (k : Kont) (v : Val) (w : Waiter) (hk : k.free = true) : Pres SI (enqueue (.resume k v w)) := fun s h =>
+theorem enqueueCloseCtl_si : Pres (SI J) (enqueue .closeCtl) := enqueue_plain_si _ rfl
+theorem enqueueResume_free_si (k : Kont) (v : Val) (w : Waiter) (hk : k.free = true) : Pres (SI J) (enqueue (.resume k v w)) := fun s h =>
   enqueue_si _ s h (fun k' hk' => by simp only [Ready.kont, Option.some.injEq] at hk'; subst hk'; exact KOk.of_free hk)
     (fun p hp => by simp [Ready.loopPid, Ready.kont, Kont.loopPid_of_free hk] at hp)
 
-theorem dequeue_si : Pres SI dequeue := by
+theorem dequeue_si : Pres (SI J) dequeue := by
   intro s h
   have e : Ext s (dequeue s).2 := Ext.of_heap rfl rfl rfl rfl rfl
-  refine ⟨pidLeafX.dequeue s h.pid, ?_, ?_, ?_, h.reap⟩
+  refine ⟨pidLeafX.dequeue s h.pid, ?_, ?_, ?_, h.reap, fun jm hj => (h.just jm hj).mono e.toExt0 (NoNine.of_eq rfl rfl rfl)⟩
   · intro g hg
     exact (h.fr g hg).mono e
   · intro r hr k hrk
@@ -526,8 +592,8 @@ theorem dequeue_si : Pres SI dequeue := by
     omega
 
 /-- taking the first ready entry off the queue: its continuation may run -/
-theorem taskOk_dequeue {s : State} (h : SI s) {k : Kont} {v : Val} {w : Waiter} {rest : List Ready}
-    (hr : s.ready = .resume k v w :: rest) : TaskOk (dequeue s).2 (.resume k v w) := by
+theorem taskOk_dequeue {s : State} (h : SI J s) {k : Kont} {v : Val} {w : Waiter} {rest : List Ready}
+    (hr : s.ready = .resume k v w :: rest) : TaskOk J (dequeue s).2 (.resume k v w) := by
   have e : Ext s (dequeue s).2 := Ext.of_heap rfl rfl rfl rfl rfl
   refine ⟨(h.rd (.resume k v w) (by rw [hr]; exact List.mem_cons_self) k rfl).mono e, ?_⟩
   intro p hp
@@ -543,7 +609,7 @@ theorem taskOk_dequeue {s : State} (h : SI s) {k : Kont} {v : Val} {w : Waiter} 
 /-! ### the `stopping` flag -/
 
 theorem ext0_setObjStopping (p : Nat) (b : Bool) (s : State) : Ext0 s (setObjStopping p b s).2 := by
-  refine ⟨fun o h => h, fun h => h, ?_, fun u h hh => hh, fun u q _ hn => hn, fun q h => h, fun q st h => Or.inl h⟩
+  refine ⟨fun o h => h, fun h => h, ?_, fun u h hh => hh, fun u q _ hn => hn, fun q h => h, fun q st h => Or.inl h, fun q h => h⟩
   intro q h
   exact (hasObjLeafX q).setObjStopping p b s h
 
@@ -577,7 +643,7 @@ theorem stopping_setObjStopping_self (p : Nat) (b : Bool) (s : State) (ho : HasO
     simp [hoq]
 
 /-- setting the flag: every pending loop keeps what it knows -/
-theorem setObjStopping_true_si (p : Nat) : Pres SI (setObjStopping p true) := by
+theorem setObjStopping_true_si (p : Nat) : Pres (SI J) (setObjStopping p true) := by
   intro s h
   have e0 := ext0_setObjStopping p true s
   have hst : ∀ k, KOk s k → ∀ q, k.loopPid = some q → Stopping (setObjStopping p true s).2 q := by
@@ -589,14 +655,14 @@ theorem setObjStopping_true_si (p : Nat) : Pres SI (setObjStopping p true) := by
     · subst hqp
       exact stopping_setObjStopping_self q true s hl.obj
     · rw [stopping_setObjStopping_ne p q true s hqp]; exact hl.stopping
-  refine ⟨pidLeafW.setObjStopping p true s h.pid, ?_, ?_, h.uniq, h.reap⟩
+  refine ⟨pidLeafW.setObjStopping p true s h.pid, ?_, ?_, h.uniq, h.reap, fun jm hj => (h.just jm hj).mono e0 (NoNine.of_eq rfl rfl rfl)⟩
   · intro g hg
     exact (h.fr g hg).mono0 e0 (hst _ (h.fr g hg))
   · intro r hr k hrk
     exact (h.rd r hr k hrk).mono0 e0 (hst _ (h.rd r hr k hrk))
 
 /-- clearing the flag of a pid for which no loop is pending -/
-theorem setObjStopping_false_si (p : Nat) (s : State) (h : SI s) (hc : pendCount s p = 0) : SI (setObjStopping p false s).2 := by
+theorem setObjStopping_false_si (p : Nat) (s : State) (h : SI J s) (hc : pendCount s p = 0) : SI J (setObjStopping p false s).2 := by
   have e0 := ext0_setObjStopping p false s
   have hst : ∀ k, KOk s k → (∀ q, k.loopPid = some q → q ≠ p) → ∀ q, k.loopPid = some q → Stopping (setObjStopping p false s).2 q := by
     intro k hk hne q hq
@@ -605,7 +671,7 @@ theorem setObjStopping_false_si (p : Nat) (s : State) (h : SI s) (hc : pendCount
     have hl : LoopOk s _ _ _ _ _ := hk
     unfold Stopping
     rw [stopping_setObjStopping_ne p q false s hqp]; exact hl.stopping
-  refine ⟨pidLeafW.setObjStopping p false s h.pid, ?_, ?_, h.uniq, h.reap⟩
+  refine ⟨pidLeafW.setObjStopping p false s h.pid, ?_, ?_, h.uniq, h.reap, fun jm hj => (h.just jm hj).mono e0 (NoNine.of_eq rfl rfl rfl)⟩
   · intro g hg
     refine (h.fr g hg).mono0 e0 (hst _ (h.fr g hg) ?_)
     intro q hq hqp
@@ -620,7 +686,7 @@ theorem setObjStopping_false_si (p : Nat) (s : State) (h : SI s) (hc : pendCount
     omega
 
 /-- no loop is pending for a pid whose `stopping` flag is not set -/
-theorem pendCount_zero_of_not_stopping {s : State} (h : SI s) {p : Nat} (hn : ¬ Stopping s p) : pendCount s p = 0 := by
+theorem pendCount_zero_of_not_stopping {s : State} (h : SI J s) {p : Nat} (hn : ¬ Stopping s p) : pendCount s p = 0 := by
   unfold pendCount
   have h1 : s.frames.countP (fun f => f.k.loopPid == some p) = 0 := by
     rw [List.countP_eq_zero]
@@ -641,5 +707,7 @@ theorem pendCount_zero_of_not_stopping {s : State} (h : SI s) {p : Nat} (hn : ¬
       exact hn (LoopOk.stopping hk)
     | _ => simp [Ready.loopPid, Ready.kont] at hp
   omega
+
+end
 
 end Circus.Core
